@@ -25,8 +25,8 @@ pub fn def() -> PropDef {
     panic_policy: PanicPolicy::Count,
     rule: "random source trees (all node kinds incl. binary leaves, SourceMapSource with and without inner map, custom sources) A, a second build A' from the same constructor calls, a deep clone, and a tree B one edit away; random observer histories (source, buffer, size, rope, to_writer, map(t/f), stream(t/f), hash, clone) are applied to one or both operands; eq/hash are taken before and after, through BoxSource and &dyn Source; non-trivial = the tree has a node with a lazily filled cache (binary leaf, ReplaceSource with replacements, CachedSource) and the history observed it; distinct = case fingerprint",
     cases: |t| match t {
-      Tier::Quick => 30_000,
-      Tier::Thorough => 500_000,
+      Tier::Quick => 100_000,
+      Tier::Thorough => 1_500_000,
     },
   }
 }
@@ -39,8 +39,8 @@ pub fn def20() -> PropDef {
     panic_policy: PanicPolicy::Count,
     rule: "random source trees A and B = A with one edit (leaf text / bytes / type, original file name, replacement start / end / content / name / enforce / added / removed, child added / removed / reordered, attached map mappings / sources / sourcesContent / names / sourceRoot / file / debugId / segment target / segment name, inner map, original source, remove flag, wrapper) at a random depth; when source(), buffer() or map() (either column setting) differ, hashes (FNV and SipHash, through BoxSource and &dyn Source) must differ and the values compare unequal; independently generated trees likewise; hashes are logged per spec fingerprint by every worker process (a shared case stream), recomputed in a second thread and after an observer history, and the merged log must be a function; non-trivial = the edit changed an observable; distinct = case fingerprint",
     cases: |t| match t {
-      Tier::Quick => 40_000,
-      Tier::Thorough => 800_000,
+      Tier::Quick => 100_000,
+      Tier::Thorough => 1_500_000,
     },
   }
 }
